@@ -1,4 +1,4 @@
-from copy import copy, deepcopy
+from copy import copy
 from datetime import timedelta
 from typing import Dict, List, Optional, Set
 
@@ -87,7 +87,7 @@ class Hexital:
                 indicator.candle_manager = self._candles[indicator.timeframe]
             else:
                 manager = CandleManager(
-                    deepcopy(self._candles[DEFAULT_CANDLES]).candles,
+                    [candle.raw_copy() for candle in self._candles[DEFAULT_CANDLES].candles],
                     candles_lifespan=self.candles_lifespan,
                     timeframe=indicator.timeframe if indicator.timeframe else self.timeframe,
                     timeframe_fill=self.timeframe_fill,
